@@ -253,6 +253,8 @@ pub(crate) enum ExprErrorKind {
     UnexpectedValueForSignal(String, OutputValue),
     #[error("The variable {0} is read before it has been assigned a value")]
     UnassignedVariable(String),
+    #[error("Division by zero")]
+    DivisionByZero,
 }
 
 /// Could not construct static iterator
